@@ -84,13 +84,15 @@ Theorem C24_histories : forall lsafe ideal s0 ss0 ops, R s0 ss0 -> Forall op_wf 
 Proof. exact run_refines. Qed.
 
 (* isolation over whole histories: inserting, anywhere, writes through handles inside the key space
-   of Q changes no observation of a history that reads only through handles (same level of the
-   stack) whose full prefix is incomparable with Q — on the specification and on the model run *)
+   of Q changes no observation of a history (p_hist) whose reads, iterations and snapshots go through
+   handles (one level d of the stack) with full prefix incomparable with Q and whose direct writes
+   and batches (bound in the history) go anywhere on level d.  Flush, drop, init, NotFlushedPairs,
+   Compact, Stat, live iterators and handles on other levels are NOT covered (p_hist is False). *)
 Theorem C24_history_isolation_spec : forall d Q lsafe ss0 l1 l2, swf ss0 -> inserted d Q l1 l2 ->
-  Forall (p_op d Q) l1 -> spec_run lsafe ss0 l2 = spec_run lsafe ss0 l1.
+  p_hist d Q [] l1 -> spec_run lsafe ss0 l2 = spec_run lsafe ss0 l1.
 Proof. exact spec_isolation. Qed.
 Theorem C24_history_isolation : forall d Q lsafe ideal s0 ss0 l1 l2, R s0 ss0 ->
-  inserted d Q l1 l2 -> Forall (p_op d Q) l1 -> Forall op_wf l1 -> Forall op_wf l2 ->
+  inserted d Q l1 l2 -> p_hist d Q [] l1 -> Forall op_wf l1 -> Forall op_wf l2 ->
   map erase (run lsafe ideal s0 l2) = map erase (run lsafe ideal s0 l1).
 Proof. exact model_isolation. Qed.
 
@@ -98,8 +100,9 @@ Proof. exact model_isolation. Qed.
 Example C24_ex_isolation :
   let hp := {| h_d := 0; h_path := [[97]] |} in
   let hq := {| h_d := 0; h_path := [[98]; [0]] |} in
-  inserted 0 [98] [OPut hp [1] []; OGet hp [1]] [OPut hq [1] [2]; OPut hp [1] []; ODel hq []; OGet hp [1]]
-  /\ Forall (p_op 0 [98]) [OPut hp [1] []; OGet hp [1]].
+  let l1 := [OPut hp [1] []; OBNew 0 hp; OBPut 0 [2] [3]; OSnap hp; OBWrite 0; OGet hp [1]; OSIter 0 None None] in
+  inserted 0 [98] l1 (OPut hq [1] [2] :: OPut hp [1] [] :: OBNew 0 hp :: ODel hq [] :: skipn 2 l1)
+  /\ p_hist 0 [98] [] l1.
 Proof. exact isolation_nonvacuous. Qed.
 Example C24_ex_state :
   let u := Eng ELdb [([97; 1], [5]); ([97; 255], []); ([98], [6])] in
